@@ -115,6 +115,10 @@ M = {
                                       'LEFT with a whole-number float count fails again (the repaired defect; needs a count made by ROUND*)'),
     'c14-vlookup-case-sensitive': ('C14', [(CTX, "                key, wanted = key.lower(), wanted.lower()", "                pass"), (ABS, "                key, wanted = key.lower(), wanted.lower()", "                pass")],
                                    'VLOOKUP compares text keys by code point again (the repaired defect)'),
+    'c19-array-formula-object-scanned': ('C19', [(SRC + 'excel.py', "scanned = cell.value.text if isinstance(cell.value, ArrayFormula) else cell.value", "scanned = cell.value")],
+                                         'the safety scan looks at the ArrayFormula object instead of its text (the repaired defect)'),
+    'c03-entry-cell-not-refilled': ('C03', [(SRC + 'utilities/parser.py', "CellTranslator.translate(excel.fill_cell(copy(self._entrypoint_cell)), excel, context)", "CellTranslator.translate(copy(self._entrypoint_cell), excel, context)")],
+                                    'an entry Cell handed out by an Executor is registered as its computed constant (the repaired defect)'),
     'c01-amp-precedence': ('C01', [(SRC + 'translators/expression_token_translator.py', "AmpersandToken: 2,", "AmpersandToken: 3,")], '& binds as tightly as + -'),
     'c03-area-cells-not-registered': ('C03', [(SRC + 'translators/matrix_of_cell_identifiers_token_translator.py', "CellTranslator.translate(j, excel, context) for j in i",
                                                "(CellTranslator.translate(j, excel, context) if excel.fill_cell(j).column < 3 else context._get_cell_with_cell_preprocessor(j.uid)) for j in i")],
